@@ -180,7 +180,7 @@ func (w *World) callValueSync(fv Value, args []Value) Value {
 	for !done {
 		if len(th.frames) == 0 {
 			if th.crashed {
-				panic(goPanic{"panic in synchronous call: " + show(th.result)})
+				panic(goPanic{w.panicMessage(th.result)})
 			}
 			break
 		}
@@ -207,6 +207,12 @@ func (w *World) invokeValue(th *Thread, fv Value, args []Value, cont func(Value)
 		w.callFunction(th, f.fn, args, f.env, cont, site)
 	case *ssa.Builtin:
 		cont(w.callBuiltin(th, f, args, site))
+	case *NativeFn:
+		res := f.f(w, th, args)
+		if _, ok := res.(blockedT); ok {
+			return
+		}
+		cont(res)
 	case Ptr:
 		if f == nil {
 			panic(goPanic{"runtime error: invalid memory address or nil pointer dereference (nil func)"})
@@ -229,6 +235,9 @@ func (w *World) callFunction(th *Thread, fn *ssa.Function, args []Value, env []V
 			// the thread stopped at a visible operation; the instruction is re-executed when granted
 			return
 		}
+		if _, ok := res.(notHandledT); ok {
+			goto interpret
+		}
 		if pf, ok := res.(pushCall); ok {
 			w.invokeValue(th, pf.fn, pf.args, func(r Value) {
 				if pf.then != nil {
@@ -241,9 +250,21 @@ func (w *World) callFunction(th *Thread, fn *ssa.Function, args []Value, env []V
 		cont(res)
 		return
 	}
+interpret:
+	if len(w.eng.cfg.Stub) > 0 && w.eng.cfg.stubbed(name) {
+		w.stubsSeen["zero-stub:"+name] = true
+		cont(zeroResults(fn.Signature))
+		return
+	}
 	pkg := funcPkgPath(fn)
 	if w.eng.silenced(pkg) {
 		w.stubsSeen["silenced:"+pkg] = true
+		cont(silencedResults(fn.Signature))
+		return
+	}
+	if envPkgs[pkg] && len(th.frames) > 0 && isPkgInit(th.frames[0].fn) {
+		// environment access while initialising package-level variables: opaque zero result
+		w.stubsSeen["init-env-zero:"+name] = true
 		cont(zeroResults(fn.Signature))
 		return
 	}
@@ -257,13 +278,9 @@ func (w *World) callFunction(th *Thread, fn *ssa.Function, args []Value, env []V
 		}
 		panic(w.unsupported("unsupported-call %s (no body)", name))
 	}
-	if isPkgInit(fn) && w.initDone[fn.Pkg] == 0 {
-		// explicit call to another package's init from an init: handled lazily
-		w.ensureInit(fn.Pkg)
-		cont(nil)
-		return
-	}
-	if isPkgInit(fn) && th.top() != nil && th.top().fn != nil && isPkgInit(th.top().fn) {
+	if isPkgInit(fn) && th.top() != nil {
+		// an init calling the inits of its imports: packages are initialised lazily, on first
+		// access to one of their globals
 		cont(nil)
 		return
 	}
@@ -272,6 +289,38 @@ func (w *World) callFunction(th *Thread, fn *ssa.Function, args []Value, env []V
 		return
 	}
 	w.pushFrame(th, fn, args, env, cont, site)
+}
+
+// envPkgs are packages whose functions talk to the operating system.
+var envPkgs = map[string]bool{"os": true, "syscall": true, "os/exec": true, "os/user": true, "net": true, "os/signal": true,
+	"path/filepath": false, "io/ioutil": true, "runtime": true, "github.com/spf13/viper": true, "github.com/spf13/pflag": true,
+	"github.com/denisbrodbeck/machineid": true, "regexp": false}
+
+// silencedResults is zeroResults except that *struct results are fresh zero objects, so that
+// chained logger calls (log.WithField(..).Debug(..)) and promoted methods keep working.
+func silencedResults(sig *types.Signature) Value {
+	r := sig.Results()
+	mk := func(t types.Type) Value {
+		if p, ok := t.Underlying().(*types.Pointer); ok {
+			if _, ok := p.Elem().Underlying().(*types.Struct); ok {
+				c := new(Value)
+				*c = zero(p.Elem())
+				return Ptr(c)
+			}
+		}
+		return zero(t)
+	}
+	switch r.Len() {
+	case 0:
+		return nil
+	case 1:
+		return mk(r.At(0).Type())
+	}
+	t := make(Tuple, r.Len())
+	for i := range t {
+		t[i] = mk(r.At(i).Type())
+	}
+	return t
 }
 
 func zeroResults(sig *types.Signature) Value {
@@ -387,7 +436,33 @@ func (w *World) returnFrame(th *Thread, fr *frame, res Value) {
 }
 
 // raise starts panicking in the top frame of th.
+func (w *World) panicMessage(v Value) string {
+	if iv, ok := v.(Iface); ok && iv.t != nil {
+		if s, ok := iv.v.(Struct); ok && len(s) == 1 && types.Identical(iv.t, w.eng.runtimeErrorType()) {
+			if str, ok := s[0].(string); ok {
+				return str
+			}
+		}
+		if str, ok := iv.v.(string); ok {
+			return str
+		}
+		if w.eng.implements(iv.t, w.eng.errorIface()) && !w.eng.isOpaqueType(iv.t) {
+			return w.errorString(iv)
+		}
+	}
+	return show(v)
+}
+
 func (w *World) raise(th *Thread, val Value) {
+	if fr := th.top(); fr != nil {
+		loc := fr.fn.String() + fr.posString(w.eng)
+		for i, n := len(th.frames)-2, 0; i >= 0 && n < 5; i, n = i-1, n+1 {
+			loc += " < " + th.frames[i].fn.String() + th.frames[i].posString(w.eng)
+		}
+		if len(w.lastPanicLoc) < 2000 {
+			w.lastPanicLoc += " || " + loc
+		}
+	}
 	fr := th.top()
 	if fr == nil {
 		th.crashed = true
@@ -1093,7 +1168,7 @@ func (w *World) execCall(th *Thread, fr *frame, site ssa.Instruction, call *ssa.
 	// silenced interface method calls (e.g. logrus.FieldLogger)
 	if call.Method != nil {
 		if pkg := call.Method.Pkg(); pkg != nil && w.eng.silenced(pkg.Path()) {
-			cont(zeroResults(call.Method.Type().(*types.Signature)))
+			cont(silencedResults(call.Method.Type().(*types.Signature)))
 			return
 		}
 	}
